@@ -298,6 +298,36 @@ func chainIssues(rs *Resid, fn *ast.FuncDecl, body *ast.BlockStmt, stages map[st
 			iss(fn, "stage-count", "stage %s is called %d times (expected exactly once)", name, called[name])
 		}
 	}
+	// a supplied error (join's err parameter) is a stage that has already failed: nil may be returned as error only where
+	// every supplied error has been established to be nil
+	if len(errParams) > 0 && fnReturnsError(fn, body) {
+		ast.Inspect(body, func(n ast.Node) bool {
+			if _, ok := n.(*ast.FuncLit); ok {
+				return false
+			}
+			ret, ok := n.(*ast.ReturnStmt)
+			if !ok || len(ret.Results) == 0 || !isNilLit(ret.Results[len(ret.Results)-1]) {
+				return true
+			}
+			gs := guardsOf(body, ret)
+			for e := range errParams {
+				tested := false
+				for _, g := range gs {
+					be, ok := unparen(g.e).(*ast.BinaryExpr)
+					if !ok || !isNilLit(be.Y) || canon(be.X) != e {
+						continue
+					}
+					if (be.Op == token.NEQ && !g.pos) || (be.Op == token.EQL && g.pos) {
+						tested = true
+					}
+				}
+				if !tested {
+					iss(ret, "supplied-error-lost", "returns a nil error on a path that has not established that the supplied error %s is nil: when the earlier stage failed, its error is swallowed and the caller sees zero values with no error", e)
+				}
+			}
+			return true
+		})
+	}
 	return out
 }
 
